@@ -200,8 +200,9 @@ pub fn run_stream(s: &Stream) -> (Vec<Violation>, u64, Option<String>) {
 
 pub fn streams(quick: bool) -> Vec<Stream> {
     let mut out = Vec::new();
-    let limits: &[usize] = if quick { &[1, 4000, 1_000_000] } else { &[1, 1448, 4000, 1_000_000] };
-    let nfrags: &[usize] = if quick { &[1, 3, 691, 65536] } else { &[1, 2, 3, 691, 65536] };
+    // limits that are exact multiples of the fragment size are a boundary of the rounding (one fragment more must not fit)
+    let limits: &[usize] = if quick { &[1, 1448, 4000, 1_000_000] } else { &[1, 1448, 2896, 4000, 5 * 1448, 1_000_000] };
+    let nfrags: &[usize] = &[1, 2, 3, 691, 65536];
     let strides: &[u32] = if quick { &[1, 33] } else { &[1, 31, 32, 33] };
     for &limit in limits { for &nfrag in nfrags { for walk in 0..6u8 { for &stride in strides { for cadence in 0..3u8 { for flush in 0..3u8 {
         if quick && (walk == 2 && stride != 1) { continue; }
@@ -244,7 +245,7 @@ pub fn build(quick: bool) -> PropRun {
     }
     PropRun { level: "fault_enumeration", scenarios: scs, units, replay_case: Some(replay_case), summary: Summary {
         rule: "(a) every stream of the generator grid (receiver limit x claimed fragment count x id walk x frame id stride x frames per application round x step spacing; every round is flush, frames, step, receive as Client::step/Server::step perform it), 3-10 windows long, is fed to a lone real receiving HalfConnection under a counting allocator: receive-alloc counter <= limit rounded to a fragment, heap growth above the empty connection <= limit + fixed allowance, acknowledgement queue <= 2 windows, nothing leaked; (b) deviation-bounded link-world exploration with small limits: bytes outstanding on the wire never exceed the peer's limit, never more than a window of packets, no packet discarded for lack of memory; distinct = distinct outcome hash".into(),
-        bounds: json!({"limits": [1, 1448, 4000, 1_000_000], "claimed_fragments": [1, 2, 3, 691, 65536], "id_walks": ["inside window", "window edge", "outside window", "one fragment each + sync frames", "short last fragment first", "complete multi-fragment packets behind a Reliable packet that never arrives"], "frame_id_strides": [1, 31, 32, 33], "frames_between_steps": [1, 50, 5000], "step_spacing_ms": [1, 20, 1000], "frames_per_stream": if quick { 3 * 4096 + 100 } else { 10 * 4096 }, "sender_d": if quick { 2 } else { 3 }}),
+        bounds: json!({"limits": if quick { vec![1, 1448, 4000, 1_000_000] } else { vec![1, 1448, 2896, 4000, 7240, 1_000_000] }, "claimed_fragments": [1, 2, 3, 691, 65536], "id_walks": ["inside window", "window edge", "outside window", "one fragment each + sync frames", "short last fragment first", "complete multi-fragment packets behind a Reliable packet that never arrives"], "frame_id_strides": [1, 31, 32, 33], "frames_between_steps": [1, 50, 5000], "step_spacing_ms": [1, 20, 1000], "frames_per_stream": if quick { 3 * 4096 + 100 } else { 10 * 4096 }, "sender_d": if quick { 2 } else { 3 }}),
         assumptions: vec!["heap allowance above max_receive_alloc: 4*4096 ack groups of 12 B, 64 B per fragment of limit, two frames, 64 kB slack - a closed formula, not measured; streams are several windows long so that any structure growing with the stream exceeds it".into(),
                           "the allocator counts requested sizes (not allocator-internal rounding) of blocks obtained by the thread while the connection exists".into()],
         witness_names: WITNESSES.to_vec(), extra: json!({}), exhaustive: true } }
